@@ -149,8 +149,10 @@ def exact_matches(text, base, value):
     return False
 
 
-def approx_matches(text, base, value, strict=False):
-    """True if some reading is `value` truncated toward zero within one last-digit unit."""
+def approx_matches(text, base, value, strict=False, float_result=False):
+    """True if some reading is `value` truncated toward zero within one last-digit unit.
+    float_result: the printed number was computed in machine floats, so it may sit a relative 1e-12 to either side of
+    the exact value before it is truncated."""
     skipped = []
     for r in readings(text, base, skipped):
         if r.recurring:
@@ -162,7 +164,11 @@ def approx_matches(text, base, value, strict=False):
             ok = False
         else:
             diff = abs(v) - abs(rv)
-            ok = (0 < diff if strict else 0 <= diff) and diff < r.ulp
+            if float_result:
+                slack = abs(v) / 10 ** 12
+                ok = -slack <= diff <= r.ulp + slack
+            else:
+                ok = (0 < diff if strict else 0 <= diff) and diff < r.ulp
         if ok:
             return True
     if skipped:
